@@ -196,7 +196,7 @@ def run(rep, tier, rng):
             for nrows in (0, 2, 3, 5):
                 for ops in ([("readall",)], [("it", -1)]):
                     for wi in (True, False):
-                        pcases.append([17] + C.pack_bytes(bytes(shp)) + ([1] + C.pack_bytes(refesri.encode_shx(m)) if wi else [0]) + [nrows] + C08.pair_case([], ops)[2:])
+                        pcases.append([17, -1] + C.pack_bytes(bytes(shp)) + ([1] + C.pack_bytes(refesri.encode_shx(m)) if wi else [0]) + [nrows] + C08.pair_case([], ops)[2:])
                         pmeta.append((code, bad_at, nrows, ops))
     pimpl = stages.correspondence(rep, "pairfile", dev, pcases, "pairfile(undefined code through the complete reader)", vm_sample=20)
     for c, r, (code, bad_at, nrows, ops) in zip(pcases, pimpl, pmeta):
